@@ -10,7 +10,7 @@ package main
 // the ping-table mutex on its way; none of them may be held by a sender across its I/O.  A watchdog turns a Parse that
 // has not returned within 3 s into "fuel"; then the write is released and the send must return.
 //
-//	gate SEND hex hex ...     observation: held | not-held, one result class per frame, released | stuck
+//	gate SEND hex hex ...     observation: held | not-held, the FULL observation of kind p per frame, released | stuck
 //
 // Model (coq/Extract/D01.v, kind gate): the pure result class of every frame - the model of Parse has no input for
 // "a send in flight" and no blocking step, so its result cannot depend on one; blocking itself is the runtime part and
@@ -27,6 +27,7 @@ import (
 	"github.com/irai/packet/handlers/arp_spoofer"
 	"github.com/irai/packet/handlers/dns_naming"
 	"pvharness/cmd/c01/pgen"
+	"pvharness/cmd/c01/punit"
 	"pvharness/lib"
 )
 
@@ -67,9 +68,9 @@ var gateSends = []string{"ping4", "ping6", "vdr", "echo4", "echo6", "ns", "na", 
 	"mdns", "llmnr", "nbns", "ssdp"}
 
 func startSend(kind string, s *packet.Session) func() {
-	peer := packet.Addr{MAC: pingPeerMAC, IP: netip.AddrFrom4([4]byte{192, 168, 0, 7})}
+	peer := packet.Addr{MAC: punit.PingPeerMAC, IP: netip.AddrFrom4([4]byte{192, 168, 0, 7})}
 	host6 := packet.Addr{MAC: pgen.DefaultCfg.HostMAC, IP: netip.MustParseAddr("fe80::1:129")}
-	peer6 := packet.Addr{MAC: pingPeerMAC, IP: netip.MustParseAddr("fe80::7")}
+	peer6 := packet.Addr{MAC: punit.PingPeerMAC, IP: netip.MustParseAddr("fe80::7")}
 	switch kind {
 	case "ping4":
 		return func() { s.Ping(peer, 300*time.Millisecond) }
@@ -102,7 +103,7 @@ func startSend(kind string, s *packet.Session) func() {
 		case "arpwhois":
 			return func() { h.WhoIs(peer.IP) }
 		}
-		return func() { h.AnnounceTo(pingPeerMAC, peer.IP) }
+		return func() { h.AnnounceTo(punit.PingPeerMAC, peer.IP) }
 	case "mdns", "llmnr", "nbns", "ssdp":
 		h := dns_naming.VerifNew(s)
 		switch kind {
@@ -121,7 +122,7 @@ func startSend(kind string, s *packet.Session) func() {
 // gateFrames: echo replies first, then one frame of every PayloadID class from a LAN client (so that the host table
 // and its locks are exercised too).
 func gateFrames(g *pgen.G) [][]byte {
-	fs := [][]byte{echoFrame("4", 0, 24, ""), echoFrame("6", 129, 24, "")}
+	fs := [][]byte{punit.EchoFrame("4", 0, 24, ""), punit.EchoFrame("6", 129, 24, "")}
 	cl := pgen.ClassFrames(g, pgen.MACClient1, []byte{192, 168, 0, 9}, pgen.IP6s[0])
 	for id := 1; id <= 29; id++ {
 		fs = append(fs, cl[id])
@@ -167,18 +168,8 @@ func runGate(a []string) (obs string, poisoned bool) {
 	fdone := make(chan struct{})
 	go func() { // the read loop
 		for i, f := range frames {
-			r := "ok"
-			func() {
-				defer func() {
-					if recover() != nil {
-						r = "panic"
-					}
-				}()
-				_, p := pgen.Buffer(f, nil)
-				if _, err := s.Parse(p); err != nil {
-					r = pgen.ErrClass(err)
-				}
-			}()
+			buf, p := pgen.Buffer(f, nil)
+			r := pgen.Observe(s, buf, p).Full
 			mu.Lock()
 			res[i] = r
 			mu.Unlock()
@@ -191,14 +182,14 @@ func runGate(a []string) (obs string, poisoned bool) {
 		poisoned = true
 	}
 	mu.Lock()
-	out := held + " " + strings.Join(res, " ")
+	out := held + " | " + strings.Join(res, " | ")
 	mu.Unlock()
 	close(conn.release)
 	select {
 	case <-sent:
-		out += " released"
+		out += " | released"
 	case <-time.After(5 * time.Second):
-		out += " stuck"
+		out += " | stuck"
 		poisoned = true
 	}
 	return out, poisoned
